@@ -18,7 +18,7 @@ import (
 
 func nPerType() int {
 	if vh.Thorough() {
-		return 5000
+		return 20000
 	}
 	return 300
 }
